@@ -536,6 +536,17 @@ def directed():
     acts6 = [dict(k='reconfig', at=1800 * US, blk=0,
                   cfg=dict(t='ts', span=[[[2024, 5, 10, 21, 0, 0, 0], [2024, 5, 10, 23, 0, 0, 0]]]))]
     out.append(dict(start_us=st6, blocks=b6, latency=[], read_cost=1, timeline=_tl(st6, b6, acts6, 8)))
+    # a TimeSpan reconfigured to a span that keeps one of its end points (only the start / only the end is
+    # moved; the time of day of the kept end point must stay registered)
+    st8 = abs_of(dt.datetime(2024, 5, 10, 20, 0, 0))
+    for new_span in ([[[2024, 5, 10, 21, 30, 0, 0], [2024, 5, 10, 22, 0, 0, 0]]],
+                     [[[2024, 5, 10, 21, 0, 0, 0], [2024, 5, 10, 22, 30, 0, 0]]],
+                     [[[2024, 5, 10, 22, 0, 0, 0], [2024, 5, 10, 23, 0, 0, 0]]],
+                     [[[2024, 5, 10, 21, 0, 0, 0], [2024, 5, 10, 22, 0, 0, 0]],
+                      [[2024, 5, 11, 21, 0, 0, 0], [2024, 5, 11, 0, 30, 0, 0]]]):
+        b8 = [dict(t='ts', span=[[[2024, 5, 10, 21, 0, 0, 0], [2024, 5, 10, 22, 0, 0, 0]]], utc=False)]
+        acts8 = [dict(k='reconfig', at=1800 * US, blk=0, cfg=dict(t='ts', span=new_span))]
+        out.append(dict(start_us=st8, blocks=b8, latency=[], read_cost=1, timeline=_tl(st8, b8, acts8, 6)))
     # a 40 ms stall makes one hourly wake-up late; the boundaries of the following hours must still be
     # served within a few milliseconds
     st7 = abs_of(dt.datetime(2024, 6, 15, 9, 30, 0))
